@@ -590,7 +590,7 @@ func (k *c19) traceCase(c *core.Ctx, i int) {
 	r := c.Rng(i, "trace")
 	w := c19Gen(r, false)
 	if i%3 == 0 {
-		width := []int{8, 20, 33, 48, 64, 100}[r.Intn(6)]
+		width := []int{8, 20, 33, 48, 64, 100, 300, 700}[r.Intn(8)]
 		w.files = wideTree(r, w.j, width)
 		c.Observe("wide_tree_widths", fmt.Sprint(width))
 	}
